@@ -319,6 +319,12 @@ def rules(ctx):
     r5_definite_assignment(ctx)
     r6_history(ctx, cg)
     r7_deepcopy(ctx)
+    # 'whatever was fitted earlier in the process': what a run leaves behind must not seed the next one. Same structural rules as
+    # C13.R1 (a model never keeps the individual latent values / data of a run: the next run would start from them instead of from
+    # seeded draws) and C13.R5 (nothing is written through process-wide containers), decided on the same code.
+    from .c13 import r1_typestate, r5_shared_defaults
+    r1_typestate(ctx, rid="C11.R8", title="no run leaves individual latent values / data in the model (the next seeded run would start from them)")
+    r5_shared_defaults(ctx, rid="C11.R9")
     st = cg.stats()
     ctx.extra["call_sites"] = st
     ctx.trust("effect tables for torch / numpy / random / scipy.stats draws (sa/effects.py); joblib / matplotlib do not draw from the seeded generators")
